@@ -243,6 +243,13 @@ fn alphabet() -> Vec<String> {
         }
     }
     push(&filled("\u{e9}", 70000));
+    // text that Unicode normalization makes longer (U+0958 decomposes under NFC: 3 -> 6 bytes) or
+    // shorter (e + U+0301 composes), at sizes around internal 1 KiB scratch areas and the attribute limits
+    for n in [100usize, 170, 171, 254, 300, 340, 341, 342, 500] {
+        push(&"\u{958}".repeat(n));
+        push(&"e\u{301}".repeat(n));
+        push(&format!("a{}", "\u{958}".repeat(n)));
+    }
     // over-long and just-fitting values wrapped in the quoting / white space the text attributes
     // trim, so that byte offsets in the trimmed and the original value differ by 1, 2 or 3
     for pre in ["", " ", "\"", " \"", "\t\t\t"] {
@@ -855,6 +862,10 @@ fn sweep_small_domains(rec: &mut Rec, rng: &mut StdRng, per_api: usize) {
             rec.val("TransactionId::deref", arg, || t.deref().len());
             rec.val("TransactionId::as_ref<[u8]>", arg, || AsRef::<[u8]>::as_ref(&t).len());
             rec.val("TransactionId::fmt", arg, || format!("{} {:?}", t, t).len());
+            // formatting with width / precision / alternate flags (they reach user-written fmt impls)
+            rec.val("TransactionId::fmt_flags", arg, || {
+                format!("{:.4} {:.12} {:.16} {:.40?} {:>40} {:<3} {:#?} {:08.2}", t, t, t, t, t, t, t, t).len()
+            });
             rec.val("TransactionId::hash", arg, || hash_of(&t));
             rec.val("TransactionId::eq", arg, || t == t.clone());
             rec.val("TransactionId::cmp", arg, || t.cmp(&TransactionId::from([0x80; 12])));
@@ -1362,6 +1373,7 @@ fn sweep_message(rec: &mut Rec, msg: &stun_rs::StunMessage, arg: &str) {
     rec.val("StunMessage::transaction_id", arg, || *msg.transaction_id());
     rec.val("StunMessage::attributes", arg, || msg.attributes().len());
     rec.val("StunMessage::fmt_debug", arg, || format!("{:?}", msg).len());
+    rec.val("StunMessage::fmt_debug_flags", arg, || format!("{:.20?} {:#?} {:40.1?}", msg, msg, msg).len());
     rec.opt("StunMessage::get<UserName>", arg, || msg.get::<UserName>().map(|_| ()));
     rec.opt("StunMessage::get<Nonce>", arg, || msg.get::<Nonce>().map(|_| ()));
     rec.opt("StunMessage::get<Software>", arg, || msg.get::<Software>().map(|_| ()));
